@@ -90,6 +90,26 @@ func newC04Obj(c *core.Ctx, i int, dsse bool, kind string) (*c04Obj, any) {
 			payload = p
 		}
 	}
+	if l, ok := payload.(intoto.Layout); ok && i%3 == 1 {
+		// keys as other implementations (and callers who build Key objects themselves) describe them:
+		// without a list of key id hash algorithms, or with an empty one - signed as null and []
+		keys := map[string]intoto.Key{}
+		kt, _ := tree["keys"].(map[string]any)
+		n := 0
+		for id, k := range l.Keys {
+			if t, isTree := kt[id].(map[string]any); isTree {
+				if n%2 == 0 {
+					k.KeyIDHashAlgorithms, t["keyid_hash_algorithms"] = nil, nil
+				} else {
+					k.KeyIDHashAlgorithms, t["keyid_hash_algorithms"] = []string{}, []any{}
+				}
+				n++
+			}
+			keys[id] = k
+		}
+		l.Keys = keys
+		payload = l
+	}
 	md, err := gen.NewMeta(payload, dsse)
 	if err != nil {
 		return nil, nil
@@ -478,6 +498,12 @@ func c04Foreign(c *core.Ctx, id string, i int, kind string, k1, k2 gen.KeyPair, 
 		return
 	}
 	pt := "application/vnd.in-toto+json"
+	oddType := i%4 == 3
+	if oddType {
+		// media types compare case-insensitively: a signer may spell the type like this. A loader may
+		// refuse such an envelope; one that takes it has to keep the type that was signed.
+		pt = []string{"application/vnd.in-toto+JSON", "Application/Vnd.In-Toto+Json", "APPLICATION/VND.IN-TOTO+JSON"}[(i/4)%3]
+	}
 	sig, err := ref.SignStd(k1.Signer, ref.PAE(pt, pb))
 	if err != nil {
 		return
@@ -500,9 +526,16 @@ func c04Foreign(c *core.Ctx, id string, i int, kind string, k1, k2 gen.KeyPair, 
 	}
 	md, err := intoto.LoadMetadata(file)
 	c.Eval(1)
+	if err != nil && oddType {
+		c.Obs("foreign_envelopes_with_oddly_cased_payload_type_refused", 1)
+		return
+	}
 	if err != nil {
 		c.Violation("envelope made by an independent implementation is refused by the loader: "+core.MsgClass(err.Error()), id, detail)
 		return
+	}
+	if oddType {
+		detail["payload_type"] = pt
 	}
 	if err := md.VerifySignature(k1.Pub); err != nil {
 		c.Violation("signature of an independent implementation over its own payload bytes is rejected: "+core.MsgClass(err.Error()), id, detail)
@@ -745,7 +778,7 @@ func init() {
 	core.Register(&core.Property{
 		ID:    "C04",
 		Level: "exploration",
-		Rule: "(1) all operation histories of length<=3 (quick) / <=4 (thorough) over {sign(k0 Ed25519), sign(k1 ECDSA P-256), sign(k2 RSA-2048), dump+load, change a signed field, sign again with the last signer, edit an element of a collection handed out by GetPayload and set the payload again} plus five longer ones of the form sign / change / sign again with the same key / dump+load x {link, layout} x {legacy, DSSE}; after every operation each of 4 keys (3 history keys + an outsider) must verify iff it signed the current content, and every emitted signature is verified independently with crypto/* over reference bytes (reference canonical JSON / reference DSSE PAE); (2) every key kind (RSA-2048/3072, ECDSA P-224/256/384/521, Ed25519; thorough: fresh keys too) x wrapper x payload: library signs -> stdlib verifies, dump+load, stdlib signs reference bytes -> library verifies; DSSE envelope of an independent implementation (other JSON spelling of the payload; standard or URL-safe base64 for signature / payload) loaded, verified, signed with a second key, both signatures verified by the library and independently over the dumped payload bytes; (3) single-point mutations of a file that was loaded untouched from the same path before (same size, same modification time): every payload leaf edit/delete/insert, signature first/middle/last character, empty/doubled signature, valid signature followed by a suffix (one more digit, non-hex / non-base64 characters, blank, newline, padding), key id edit, every other pool key, key objects with the signer's id and foreign material in both orders of use. " +
+		Rule: "(1) all operation histories of length<=3 (quick) / <=4 (thorough) over {sign(k0 Ed25519), sign(k1 ECDSA P-256), sign(k2 RSA-2048), dump+load, change a signed field, sign again with the last signer, edit an element of a collection handed out by GetPayload and set the payload again} plus five longer ones of the form sign / change / sign again with the same key / dump+load x {link, layout} x {legacy, DSSE}; after every operation each of 4 keys (3 history keys + an outsider) must verify iff it signed the current content, and every emitted signature is verified independently with crypto/* over reference bytes (reference canonical JSON / reference DSSE PAE); (2) every key kind (RSA-2048/3072, ECDSA P-224/256/384/521, Ed25519; thorough: fresh keys too) x wrapper x payload: library signs -> stdlib verifies, dump+load, stdlib signs reference bytes -> library verifies; DSSE envelope of an independent implementation (other JSON spelling of the payload; standard or URL-safe base64 for signature / payload; a quarter with the payload type in another letter case, which the loader may refuse) loaded, verified, signed with a second key, both signatures verified by the library and independently over the dumped payload bytes; (3) single-point mutations of a file that was loaded untouched from the same path before (same size, same modification time): every payload leaf edit/delete/insert, signature first/middle/last character, empty/doubled signature, valid signature followed by a suffix (one more digit, non-hex / non-base64 characters, blank, newline, padding), key id edit, every other pool key, key objects with the signer's id and foreign material in both orders of use. " +
 			"non-trivial = history contains a sign; distinct = (history, wrapper, payload type) / (key kind, wrapper, payload) / (mutation label...)",
 		Assumptions: []string{"Go's crypto/rsa, crypto/ecdsa, crypto/ed25519 are the trusted base (independent use, not an independent implementation)", "payloads are generated with hostile strings, a third of them with absent (nil) collections; reference bytes come from harness/ref/cjson.go"},
 		Workers:     func(string) int { return 16 },
